@@ -6,6 +6,7 @@ It extends the guard translator (py2v.Tr) by what these four methods need and no
   * attribute reads `x.name` / `x.value` on a local value;
   * `[x.a for x in self.Y]` and `{x.a for x in self.Y}` (one generator, no condition);
   * `v in <local or self.attr>` / `not in` against a run-time container;
+  * `any(x is v for v in <local or self.attr>)`: identity with one of the elements of a run-time container;
   * `self.Y[k]` subscription of a run-time mapping;
   * `return <expr>`, `self._validate(value)` as a statement, re-binding of a local inside an `if`
     (statements are translated in continuation-passing style so that what follows an `if` sees the
@@ -54,7 +55,33 @@ class Tr2(Tr):
         return super().val(e)
 
     # ------------------------------------------------------------------ conditions
+    def any_is(self, e):
+        """`any(<x> is <v> for <v> in <local or self.attr>)`: identity with one of the elements -> (x, container)"""
+        if not (isinstance(e, ast.Call) and isinstance(e.func, ast.Name) and e.func.id == "any"
+                and len(e.args) == 1 and not e.keywords and isinstance(e.args[0], ast.GeneratorExp)):
+            return None
+        g = e.args[0]
+        if len(g.generators) != 1:
+            raise Unsupported("any() over several generators")
+        c = g.generators[0]
+        if c.ifs or c.is_async or not isinstance(c.target, ast.Name):
+            raise Unsupported("any() over a generator with condition / pattern target")
+        t = g.elt
+        if not (isinstance(t, ast.Compare) and len(t.ops) == 1 and isinstance(t.ops[0], ast.Is)
+                and isinstance(t.comparators[0], ast.Name) and t.comparators[0].id == c.target.id
+                and not (isinstance(t.left, ast.Name) and t.left.id == c.target.id)):
+            raise Unsupported("any() element is not <x> is <var>")
+        if not ((isinstance(c.iter, ast.Name) and c.iter.id in self.env and c.iter.id not in self.dicts)
+                or _is_self_attr(c.iter, self.selfname)):
+            raise Unsupported("any() over something that is not a local or self.<attr>")
+        return t.left, c.iter
+
     def cond(self, e):
+        hit = self.any_is(e)
+        if hit is not None:
+            b1, a1 = self.val(hit[0])
+            b2, a2 = self.val(hit[1])
+            return self.seq(b1 + b2, "py_any_is %s %s" % (a1, a2))
         if isinstance(e, ast.Compare) and len(e.ops) == 1 and isinstance(e.ops[0], (ast.In, ast.NotIn)):
             r = e.comparators[0]
             if (isinstance(r, ast.Name) and r.id in self.env and r.id not in self.dicts) or _is_self_attr(r, self.selfname):
